@@ -186,9 +186,14 @@ def configs(model, r):
         for mirror in (False, True):
             for card in (None, "absent", 8192, 16384, 32768, 65536):
                 for ov in ("none", "ram", "rom", "overlap"):
-                    for ro in (0, 1, 2):
-                        cfg = {"mirror": mirror, "card": card, "card_seed": 7, "overlays": _ovs(ov, r),
-                               "readonly": [[0x1000, 0x1007], [0xB8010, 0xB801F]][:ro]}
+                    for ro in (0, 1, 2, 3, 4):
+                        ranges = [[0x1000, 0x1007], [0xB8010, 0xB801F]][:ro]
+                        if ro == 3:       # the same map listed in descending order
+                            ranges = [[0xB8010, 0xB801F], [0x1000, 0x1007]]
+                        elif ro == 4:     # unordered, overlapping and adjacent ranges
+                            ranges = [[0x50000, 0x5000F], [0x1000, 0x1007], [0xB8010, 0xB801F], [0x1004, 0x1010],
+                                      [0x1011, 0x1013]]
+                        cfg = {"mirror": mirror, "card": card, "card_seed": 7, "overlays": _ovs(ov, r), "readonly": ranges}
                         out.append(cfg)
             # the same final states reached through a history of slot operations on the same image
             for hist, card in ((["absent"], "present"), (["absent", "present"], 16384), ([8192, "absent"], "present"),
@@ -440,9 +445,15 @@ def run_cpu_path(res, r, n):
         val = r.randrange(1 << 24)
         n8 = r.randrange(0x10, 0xE0)
         jobs.append({"addr": addr, "val": val, "n": n8})
+    # wide stores into internal memory (every offset 0xD0..0xFD incl. the keyboard ports F0-F2, plus random ones)
+    for bits in (16, 24):
+        for n_ in list(range(0xD0, 0x100 - bits // 8 + 1)) + [r.randrange(0, 0xD0) for _ in range(8)]:
+            if n_ <= 0xFC and n_ + bits // 8 - 1 >= 0xFB:
+                continue      # IMR/ISR: the byte-wise reference run could take an interrupt between its stores
+            jobs.append({"imem_n": n_, "val": r.randrange(1 << 24) | 0x010101, "bits": bits})
     rr = rust.run("cpubus", jobs)
     for j, o in zip(jobs, rr):
-        res.monitor("cpu_path")
+        res.monitor("cpu_path_imem" if "imem_n" in j else "cpu_path")
         res.evaluations += 1
         if o.get("error") or not o.get("ok"):
             res.violation({"clause": "cpu_store_load", "model": "rs"}, j, o)
